@@ -164,6 +164,19 @@ func c09Disk(assetNames []string, wf string, cfg string) *kern.Disk {
 }
 
 // lintAlone lints header + the blocks of one group on the canonical run.
+// c09Tools is set per evaluation: when true both the composed and the solo runs have the
+// simulated shellcheck / pyflakes enabled (issues derive from markers in the scripts).
+var c09Tools bool
+
+func c09World(disk *kern.Disk) *World {
+	w := &World{Disk: disk, Cwd: "/w/r", CPUs: 2, API: APIFile, Files: []string{".github/workflows/t.yml"}}
+	if c09Tools {
+		w.Tools = &Tools{}
+		w.Opts.Shellcheck, w.Opts.Pyflakes = "shellcheck", "pyflakes"
+	}
+	return w
+}
+
 func lintAlone(o *Outcome, header string, blocks []c09Block, assetNames []string, cfg string) *aloneResult {
 	var b strings.Builder
 	b.WriteString(header)
@@ -180,11 +193,14 @@ func lintAlone(o *Outcome, header string, blocks []c09Block, assetNames []string
 	h.Write([]byte(text))
 	h.Write([]byte(strings.Join(assetNames, ",")))
 	h.Write([]byte(cfg))
+	if c09Tools {
+		h.Write([]byte("+tools"))
+	}
 	key := h.Sum64()
 	if r, ok := aloneMemo[key]; ok {
 		return r
 	}
-	w := &World{Disk: c09Disk(assetNames, text, cfg), Cwd: "/w/r", CPUs: 2, API: APIFile, Files: []string{".github/workflows/t.yml"}}
+	w := c09World(c09Disk(assetNames, text, cfg))
 	res := RunLint(w, nil, RunOpts{Canonical: true})
 	o.addRun(res.K)
 	r := &aloneResult{fatal: res.Fatal, failed: runFailure("C09", res.K)}
@@ -279,6 +295,7 @@ func (c09) Eval(c *Chooser, env *Env) *Outcome {
 		header = headers[c.Int("world.hdr", len(headers))] + "jobs:\n"
 	}
 	cfg := c09Configs[c.Int("world.config", len(c09Configs))]
+	c09Tools = c.Weighted("world.tools", 1, 3)
 	ngroups := 2 + c.Int("world.ngroups", 5)
 	taken := map[string]bool{}
 	var groups []*c09Group
@@ -328,7 +345,8 @@ func (c09) Eval(c *Chooser, env *Env) *Outcome {
 		line += blk.lines
 	}
 	text := b.String()
-	w := &World{Disk: c09Disk(assetNames, text, cfg), Cwd: "/w/r", CPUs: 2, API: APIFile, Files: []string{".github/workflows/t.yml"}, Note: "C09 composed workflow"}
+	w := c09World(c09Disk(assetNames, text, cfg))
+	w.Note = "C09 composed workflow"
 	o.World = w
 	res := RunLint(w, c, RunOpts{KeepTrace: env.KeepTrace})
 	o.addRun(res.K)
